@@ -44,7 +44,14 @@ D == {Case(<<TRUE, TRUE>>, S0 \o Accepted(1) \o Accepted(2) \o <<St("send", 1)>>
 
 E == {Case(cfg, m \o <<St("dial", 1)>> \o Rep(St("acc", 0), 3), "E") : cfg \in Cfgs, m \in Merges(SD, S0)}
 
-Init == c \in A \cup B \cup CC \cup D \cup E
+\* F (beyond the listed properties, E05): the listener fails while a request is being handled (MC_Life_ListenerFail);
+\* the serve call returns the listener's error, the request is answered, a later Shutdown closes the idle connection
+LF == <<St("lfail", 0), St("acc", 0)>>
+F == {Case(cfg, S0 \o Accepted(1) \o <<St("send", 1)>> \o m \o Rep(St("conn", 1), 4) \o tail, "F") :
+         cfg \in Cfgs, m \in Merges(LF, CONN(1)), tail \in {<<>>, SD \o Rep(St("conn", 1), 4)}}
+     \cup {Case(cfg, S0 \o LF \o <<St("dial", 1)>> \o tail, "F") : cfg \in Cfgs, tail \in {<<>>, SD}}
+CONSTANT Families
+Init == c \in (IF "C17" \in Families THEN A \cup B \cup CC \cup D \cup E ELSE {}) \cup (IF "F" \in Families THEN F ELSE {})
 Next == UNCHANGED c
 Emit == PrintT(<<"CASE", ToJson(c)>>)
 =============================================================================
